@@ -154,6 +154,7 @@ def setup(tier, seed):
     _SEED = seed
     _P.clear()
     _P['tier'] = tier
+    _P['seed'] = seed
     _P['fams'] = _families(tier, seed)
     _P['mfams'] = _mfamilies(tier, seed)
 
@@ -594,6 +595,8 @@ def items(tier, seed):
         for n in range(fam.get('minn', 0), fam['maxn'] + 1):
             for lo, hi in _ranges(b ** n, ITEM_MS / (_split_ms(fam, n) * fam['parts'] ** n)):
                 out.append(('merge', name, n, lo, hi))
+    for n in range(1, (3 if _P.get('tier', 'quick') == 'quick' else 4) + 1):
+        out.append(('transient', 'single', n, 0, 0))
     # simplest first (n ascending), rotation by seed inside one n
     out.sort(key=lambda it: it[2])
     res = []
@@ -620,8 +623,63 @@ def bounds(tier, seed):
     return b
 
 
+def transient_failure(case):
+    """A pass that died on a transient source failure must not poison later passes: after it, every pass
+    over the same view yields the full stable sort.  Returns None or (expected, observed, msg)."""
+    from ..sources import FlakyTable
+    hdr = ('k', 'id')
+    rows = [tuple(r) for r in case['rows']]
+    src = FlakyTable(hdr, rows, fail_at=case['fail_at'], times=1)
+    kw = {'reverse': case['reverse'], 'cache': case['cache']}
+    if case['buffersize'] is not None:
+        kw['buffersize'] = case['buffersize']
+    view = etl.sort(src, 'k', **kw)
+    exp = [hdr] + [tuple(r) for r in ref.stable_sort(rows, [0], case['reverse'])]
+    try:
+        list(view)
+    except Exception:
+        pass
+    for p in (2, 3):
+        try:
+            got = [tuple(r) for r in view]
+        except Exception as e:
+            return (exp, '%s: %s' % (type(e).__name__, str(e)[:80]), 'pass %d after a failed pass raises' % p)
+        if got != exp:
+            return (exp, got, 'pass %d after a failed pass differs from the stable sort' % p)
+    return None
+
+
+def check_transient(acc, n):
+    K = spaces.K4(_P.get('seed', 0)) if _P.get('tier') == 'thorough' else spaces.K3(_P.get('seed', 0))
+    for kv in itertools.product(K, repeat=n):
+        rows = [(k, n - i) for i, k in enumerate(kv)]
+        for fail_at in range(0, n + 2):
+            for bs in [None] + list(range(1, n + 2)):
+                for cache in (True, False):
+                    for rev in (False, True):
+                        case = {'kind': 'transient', 'rows': rows, 'fail_at': fail_at, 'buffersize': bs,
+                                'cache': cache, 'reverse': rev}
+                        acc.states += 1
+                        acc.evals += 2
+                        acc.transitions += 3
+                        if n >= 2 and fail_at >= 2:
+                            acc.nontrivial += 1
+                        acc.counters['transient:%s' % ('chunked' if bs is not None and bs <= n else 'memory')] += 1
+                        r = transient_failure(case)
+                        if r is not None:
+                            acc.violation('sort | %s (%s, cache=%s)' % (r[2].split(' ', 2)[2],
+                                                                        'chunked' if bs is not None and bs <= n
+                                                                        else 'memory', cache),
+                                          case, r[0], r[1], r[2])
+                        else:
+                            acc.outcome(('transient', n, fail_at, bs is not None and bs <= n))
+
+
 def run_item(item, acc):
     kind, name, n, lo, hi = item
+    if kind == 'transient':
+        check_transient(acc, n)
+        return
     if kind == 'sort':
         fam = _P['fams'][name]
         for index in range(lo, hi):
@@ -641,6 +699,8 @@ def run_item(item, acc):
 
 def replay(case):
     k = case['kind']
+    if k == 'transient':
+        return transient_failure(case)
     if k == 'sort':
         return sort_case_failures(case)
     if k == 'mergesort':
